@@ -4,7 +4,7 @@ import ast
 
 from ..core.absint import Interp, alternatives, pretty
 from ..core.analysis import Analysis, facts
-from ..core.astutil import enclosing_trys, handler_catches
+from ..core.astutil import deref, enclosing_trys, handler_catches
 from ..core.forms import (DIMLESS, NotPolynomial, Poly, Rat, U, UnitError, canon, expand,
                           to_rat, unit_of, ustr)
 from ..core.pyrepo import Repo, calls_in, dotted, norm_stmt
@@ -157,9 +157,16 @@ def run(ctx):
         reads = []
         for loop in [n for n in ast.walk(f.node) if isinstance(n, ast.For)]:
             conv = [x for x in calls_in(loop) if dotted(x.func) in ("int", "float")]
+            # a raw read held in a temporary before the conversion counts too
+            via = {dotted(st.targets[0]): st.value for st in ast.walk(loop)
+                   if isinstance(st, ast.Assign) and len(st.targets) == 1
+                   and isinstance(st.targets[0], ast.Name) and isinstance(st.value, ast.Call)}
+            conv_names = {x.id for cv in conv for a_ in cv.args for x in ast.walk(a_)
+                          if isinstance(x, ast.Name)}
             for c in calls_in(loop):
                 if dotted(c.func) in ("bcat", "cat") and not c.keywords and len(c.args) == 1 \
-                        and any(c in list(ast.walk(x)) for x in conv):
+                        and (any(c in list(ast.walk(x)) for x in conv)
+                             or any(v is c and k in conv_names for k, v in via.items())):
                     # a read without fallback= raises on a missing/unreadable file
                     inner = any(c in list(ast.walk(l2)) for l2 in ast.walk(loop)
                                 if isinstance(l2, ast.For) and l2 is not loop)
@@ -356,7 +363,8 @@ def run(ctx):
           and dotted(s.targets[0]) == "num_cpus"]
     good = txts == {"current": "currs/num_cpus", "min_": "mins/num_cpus", "max_": "maxs/num_cpus"} \
         and {"currs+=cpu.current", "mins+=cpu.min", "maxs+=cpu.max"} <= acct \
-        and nc and norm_stmt(nc[0].value).replace(" ", "") == "float(len(ret))"
+        and nc and norm_stmt(deref(fq.node, nc[0].value)) == norm_stmt(
+            deref(fq.node, ast.parse("float(len(ret))", mode="eval").body))
     if good:
         ctx.ok("C19.R3", "cpu_freq:mean", sample="sum(cpu.x) / len(ret) for current/min/max")
     else:
